@@ -656,6 +656,9 @@ def rv_origins(body, rv, bb, x, depth=0, _seen=None):
     return out
 
 
+TRANSPARENT_CALL = re.compile(r"Result::<T, E>::map_err$|ops::Try>::branch$|anyhow::Context<T, E>>::(context|with_context)$|Result::<T, E>::(as_ref|as_mut)$|Option::<T>::(as_ref|as_mut|ok_or|ok_or_else)$")
+
+
 def origins(body, local, depth=0, _seen=None):
     """where the value of a local comes from, following moves/copies/refs/casts:
     ('await', callee base or None, into_bb, Await) | ('call', callee base, bb, term) | ('field', names, base origins) |
@@ -675,6 +678,10 @@ def origins(body, local, depth=0, _seen=None):
                 out.append(("not", tuple(origins(body, operand_local(x["args"][0]), depth + 1, _seen))))
             elif x["callee"]:
                 out.append(("call", callee_base(x), bb, x))
+                # value-preserving wrappers (`r.map_err(..)`, `r.context(..)`, the `?` operator's `branch`): what went in is (inside) what comes out
+                if TRANSPARENT_CALL.search(callee_base(x)) and x["args"] and operand_local(x["args"][0]) is not None \
+                        and not [pr for pr in x["args"][0]["place"]["proj"] if pr["k"] != "deref"]:
+                    out += origins(body, operand_local(x["args"][0]), depth + 1, _seen)
         elif kind == "assign":
             out += rv_origins(body, x["rv"], bb, x, depth, _seen)
     return out
